@@ -9,6 +9,25 @@
 
 namespace cv {
 
+// A pointer that several threads may read and write without further synchronization: relaxed atomic
+// accesses, so that such use is not a data race, with the syntax of a plain pointer.
+template <typename T>
+struct RelaxedPtr {
+  RelaxedPtr() = default;
+  RelaxedPtr& operator=(T* v) {
+    p.store(v, std::memory_order_relaxed);
+    return *this;
+  }
+  RelaxedPtr& operator=(const RelaxedPtr& o) {
+    p.store(o.p.load(std::memory_order_relaxed), std::memory_order_relaxed);
+    return *this;
+  }
+  operator T*() const {
+    return p.load(std::memory_order_relaxed);
+  }
+  std::atomic<T*> p{nullptr};
+};
+
 struct BucketInfo {
   size_t bucket;
   size_t bucketIndex;
@@ -373,7 +392,7 @@ class ConVecBuffer : public ConVecBufferBase<T, kMinBufferSize, kMaxVectorSize, 
     allocAsNecessaryImpl(binfo, [](size_t, T*) {});
   }
 
-  void allocAsNecessary(const BucketInfo& binfo, T** cachedPtrs) {
+  void allocAsNecessary(const BucketInfo& binfo, RelaxedPtr<T>* cachedPtrs) {
     allocAsNecessaryImpl(binfo, [cachedPtrs](size_t b, T* p) { cachedPtrs[b] = p; });
   }
 
@@ -385,7 +404,7 @@ class ConVecBuffer : public ConVecBufferBase<T, kMinBufferSize, kMaxVectorSize, 
       const BucketInfo& binfo,
       ssize_t rangeLen,
       const BucketInfo& bend,
-      T** cachedPtrs) {
+      RelaxedPtr<T>* cachedPtrs) {
     allocAsNecessaryImpl(
         binfo, rangeLen, bend, [cachedPtrs](size_t b, T* p) { cachedPtrs[b] = p; });
   }
